@@ -220,6 +220,32 @@ def check(run):
             wits.append({"kind": "an edit that changes no interface (`%s`) makes link refuse an up-to-date dependent: %s" % (nm, rs[7].get("err", "")[:200]), "edit": nm, "base_before": ifacegen.BASE, "base_after": ifacegen.edited(nm), "main": ifacegen.MAIN})
         else:
             edit_stats["body_only_links_accepted"] += 1
+    # ---- the same interface has the same hash in every process; fresh artifacts validate and link ---------------------
+    import subprocess
+
+    exe = vlib.build_harness()
+    hashes, link_ok = [], []
+    nproc = 6 if run.tier == "quick" else 16
+    for k_ in range(nproc):
+        d_ = os.path.join(vlib.BUILD, "tmp", "c15", "rich%02d" % k_)
+        ops_ = [{"op": "write", "path": "Rich/lib.gom", "text": ifacegen.rich("7" if k_ % 2 == 0 else "8 + 1")}, {"op": "write", "path": "Main/main.gom", "text": ifacegen.RICH_MAIN},
+                {"op": "check", "pkg": "Rich", "inputs": ["Rich/lib.gom"]}, {"op": "build", "pkg": "Rich", "inputs": ["Rich/lib.gom"]}, {"op": "build", "pkg": "Main", "inputs": ["Main/main.gom"]}, {"op": "link", "pkgs": ["Rich", "Main"]}]
+        pr = subprocess.run([exe, "sep"], input=json.dumps({"dir": d_, "ops": ops_}) + "\n", capture_output=True, text=True, timeout=120, env=vlib.ENV)
+        try:
+            rs = json.loads(pr.stdout)["results"]
+        except (ValueError, KeyError):
+            broken.append(Broken("harness", "sep did not answer: " + pr.stdout[-300:] + pr.stderr[-300:]))
+            continue
+        hashes.append((rs[2].get("hash"), rs[3].get("hash")))
+        link_ok.append((bool(rs[4].get("ok")), bool(rs[5].get("ok")), (rs[4].get("err") or rs[5].get("err") or "")[:200]))
+    edit_stats["fresh_process_builds"] = len(hashes)
+    distinct = {h for pair in hashes for h in pair}
+    if hashes and (len(distinct) != 1 or None in distinct):
+        wits.append({"kind": "the same interface (bodies differ only) got %d different hashes in %d fresh processes (check and build of each)" % (len(distinct), len(hashes)), "hashes": sorted(str(h)[:16] for h in distinct), "package": ifacegen.rich("7")})
+    for ok_main, ok_link, err in link_ok:
+        if not (ok_main and ok_link):
+            wits.append({"kind": "freshly built, unaltered artifacts are refused: " + err, "package": ifacegen.rich("7"), "main": ifacegen.RICH_MAIN})
+            break
     # known finding: the core body (core_ir) is not covered by any checksum
     for k in run.known:
         if k["replay"]["kind"] == "core-body-unchecked":
